@@ -4,7 +4,11 @@ import json, os, subprocess, sys, time
 slug, props = sys.argv[1], sys.argv[2:]
 d = f'/verif/seeded/{slug}'
 assert subprocess.run(['git', '-C', '/repo', 'status', '--porcelain'], capture_output=True, text=True).stdout.strip() == '', '/repo is dirty'
-subprocess.run(['git', '-C', '/repo', 'apply', f'{d}/patch.diff'], check=True)
+how = 'git apply'
+if subprocess.run(['git', '-C', '/repo', 'apply', f'{d}/patch.diff']).returncode != 0:
+    # /repo has moved on since the seed was made (repairs): merge the change onto the current tree
+    how = 'git apply --3way (the tree was repaired after the seed was made)'
+    subprocess.run(['git', '-C', '/repo', 'apply', '--3way', f'{d}/patch.diff'], check=True)
 res = {}
 import shutil
 backup = {p: open(f'/verif/evidence/{p}.json').read() for p in props if os.path.exists(f'/verif/evidence/{p}.json')}
@@ -16,12 +20,13 @@ try:
         res[p] = {'exit': r.returncode, 'lines': lines[:8], 'wall_s': round(time.time() - t0, 1)}
         print(p, 'exit', r.returncode, *lines[:4], sep='\n   ')
 finally:
-    subprocess.run(['git', '-C', '/repo', 'checkout', '--', '.'], check=True)
+    subprocess.run(['git', '-C', '/repo', 'reset', '-q', '--hard', 'HEAD'], check=True)
     for p, txt in backup.items():      # evidence written while the seed was applied does not describe the real tree: put the real one back
         open(f'/verif/evidence/{p}.json', 'w').write(txt)
     # evidence / replay files written while the seed was applied do not describe the real tree: regenerate on demand
 meta_p = f'{d}/meta.json'
 meta = json.load(open(meta_p)) if os.path.exists(meta_p) else {}
 meta.setdefault('checks_run_with_change_applied', {}).update(res)
+meta['applied_with'] = how
 meta['caught_by'] = sorted(p for p, r in meta['checks_run_with_change_applied'].items() if r['exit'] == 1)
 json.dump(meta, open(meta_p, 'w'), indent=1)
